@@ -13,7 +13,7 @@ import z3
 from pyvc import xreal as xr
 from pyvc.numexec import Num, Bool, Unsupported
 from pyvc.heap import (alloc, HeapExec, HPath, LoopSpec, Contract, Ref, Str, NONE, XR, cls_of, SeqRef, SeqStr, x2xr, xr2x, RefV, SeqV, StrV, canon, strc, str_distinct)
-from pyvc.parsers import ParserExec, split_fn, join_fn, find_hash, prefix_fn, to_float_ok, to_float_fn, lookup, is_hedge
+from pyvc.parsers import ParserExec, split_fn, join_fn, find_hash, prefix_fn, to_float_ok, to_float_fn, lookup, is_hedge, hedge_tok
 from pyvc.hlib import init_heap, emit, frame_goal
 from pyvc.solve import Obl, static, undecided
 from pyvc.runner import main
@@ -153,7 +153,11 @@ def verify_rule_parse(run):
 
 
 # ------------------------------------------------------------------------------------------------ Consequent.load
-def verify_consequent_load(run):
+def verify_consequent_load(run, RP=RP):
+    """state machine + the FUNCTIONAL contract: conclusion j is exactly the tokens `variable is hedge* term` starting at position gpos(j) of the text - its
+    variable is the output variable of that name, its hedges are the hedges constructed from the tokens between `is` and the term IN TEXT ORDER, its term
+    is the variable's term of that name (ghosts: gpos(proposition) = position of its variable token, hedge_tok(hedge) = the name it was constructed from)"""
+    from pyvc.hlib import split_invariants
     src = run.src
     fq = "rule.Consequent.load"
     fn = src.func("rule", "Consequent.load")
@@ -163,7 +167,20 @@ def verify_consequent_load(run):
     self_, eng = z3.Const("self", Ref), z3.Const("engine", Ref)
     S = {nm: 2 ** i for i, nm in enumerate(["variable", "is", "hedge", "term", "and", "with"])}
     HT, AW = S["hedge"] | S["term"], S["and"] | S["with"]
-    jS = z3.Int("j*")
+    jS, iS = z3.Int("j*"), z3.Int("i*")
+    gpos = z3.Function("variable_token_position", Ref, z3.IntSort())
+    VNAME, TNAME = sc.field_key("OutputVariable", "name"), sc.field_key("Term", "name")
+    IS = strc("is")
+
+    def shape(H, seq, r, complete):
+        """what proposition r is, in terms of the tokens from gpos(r) on"""
+        hs = H["Proposition.hedges"][r]
+        g = gpos(r)
+        c = [H[VNAME][H["Proposition.variable"][r]] == seq[g],
+             z3.Implies(z3.And(iS >= 0, iS < z3.Length(hs)), z3.And(hs[iS] != NONE, hedge_tok(hs[iS]) == seq[g + 2 + iS]))]
+        if complete:
+            c += [seq[g + 1] == IS, H[TNAME][H["Proposition.term"][r]] == seq[g + 2 + z3.Length(hs)]]
+        return z3.And(*c)
 
     def inv(ex_, p, k, seq):
         st = p.env["state"]
@@ -173,36 +190,53 @@ def verify_consequent_load(run):
         lc = z3.Length(concl)
         prop = p.env["proposition"]
         H = p.heap
+        last = concl[lc - 1]
         # every conclusion started so far is an object with an output variable; all but possibly the last are complete
         wf_j = z3.Implies(z3.And(jS >= 0, jS < lc), z3.And(concl[jS] != NONE, alloc(concl[jS]) < ex_.now(p), H["Proposition.variable"][concl[jS]] != NONE,
-                                                          z3.Implies(jS < lc - 1, H["Proposition.term"][concl[jS]] != NONE)))
+                                                          gpos(concl[jS]) >= 0, gpos(concl[jS]) < k, z3.Implies(jS + 1 < lc, gpos(concl[jS]) < gpos(concl[jS + 1])),
+                                                          z3.Implies(jS < lc - 1, z3.And(H["Proposition.term"][concl[jS]] != NONE, gpos(concl[jS]) < gpos(last), shape(H, seq, concl[jS], True)))))
         base = [H["Consequent.conclusions"][self_] == z3.Empty(SeqRef), wf_j]
         if st == S["variable"]:
             # before the first conclusion, or right after `and`: every conclusion is complete
-            last_ok = z3.Implies(lc > 0, H["Proposition.term"][concl[lc - 1]] != NONE)
+            last_ok = z3.Implies(lc > 0, z3.And(H["Proposition.term"][last] != NONE, shape(H, seq, last, True)))
             return z3.And(*base, last_ok, z3.Implies(k == 0, lc == 0))
-        cur = z3.And(lc > 0, isinstance(prop, RefV) and prop.r == concl[lc - 1] if isinstance(prop, RefV) else z3.BoolVal(False), concl[lc - 1] != NONE,
-                     H["Proposition.variable"][concl[lc - 1]] != NONE)
-        if st == S["is"] or st == HT:
-            return z3.And(*base, cur, H["Proposition.term"][concl[lc - 1]] == NONE)
-        return z3.And(*base, cur, H["Proposition.term"][concl[lc - 1]] != NONE)         # and|with: the current conclusion is complete
+        cur = z3.And(lc > 0, isinstance(prop, RefV) and prop.r == last if isinstance(prop, RefV) else z3.BoolVal(False), last != NONE,
+                     H["Proposition.variable"][last] != NONE)
+        nh = z3.Length(H["Proposition.hedges"][last])
+        if st == S["is"]:
+            return z3.And(*base, cur, H["Proposition.term"][last] == NONE, gpos(last) == k - 1, nh == 0, shape(H, seq, last, False))
+        if st == HT:
+            return z3.And(*base, cur, H["Proposition.term"][last] == NONE, gpos(last) + 2 + nh == k, seq[gpos(last) + 1] == IS, shape(H, seq, last, False))
+        return z3.And(*base, cur, H["Proposition.term"][last] != NONE, shape(H, seq, last, True))         # and|with: the current conclusion is complete
+
+    def ghost(ex_, q, k, seq):
+        return [gpos(q.env["__newprop__"]) == k] if "__newprop__" in q.env else []
 
     def facts(ex_, p, k, seq):
-        concl = ex_.local(p, "conclusions")
-        if not isinstance(concl, SeqV):
-            return []
-        lc = z3.Length(concl.q)
         return []
+
+    def inst(ex_, p, k, seq):
+        # the invariant is proved for arbitrary j*, i*: where it is assumed it may also be used for the LAST conclusion's hedge i* and at the last hedge
+        st = p.env.get("state")
+        if not isinstance(st, int):
+            return []
+        base = inv(ex_, p, k, seq)
+        concl = ex_.local(p, "conclusions").q
+        lc = z3.Length(concl)
+        nh = z3.Length(p.heap["Proposition.hedges"][concl[lc - 1]])
+        return [z3.substitute(base, (jS, lc - 1)), z3.substitute(base, (iS, nh - 1)), z3.substitute(base, (jS, lc - 2))]
 
     contracts = {"Proposition": PropositionCtor()}
     ex = ParserExec(src, "rule", sc, contracts=contracts, interfaces=W.INTERFACES, inline={"Consequent.unload", "Engine.variables"},
-                    loops={0: LoopSpec(inv, facts=facts, name="loop0", modifies={"Proposition.variable", "Proposition.hedges", "Proposition.term"},
-                                       cases=[{"state": v} for v in (S["variable"], S["is"], HT, AW)],
-                                       inst=lambda ex_, p, k, seq: [])}, fnname=fq)
+                    loops={0: LoopSpec(inv, facts=facts, ghost=ghost, name="loop0", modifies={"Proposition.variable", "Proposition.hedges", "Proposition.term"},
+                                       cases=[{"state": v} for v in (S["variable"], S["is"], HT, AW)], inst=inst)}, fnname=fq)
+    ex.skolems = [jS, iS, jS + 1]
     pre = [self_ != NONE, eng != NONE]
     outs = ex.run_fn(fn, HPath({"self": RefV(self_, "Consequent"), "engine": RefV(eng, "Engine")}, pre, H0))
+    split_invariants(ex)
     emit(run, ex, fq, [], RP)
     raise_obligations(run, fq, outs)
+    toks = split_fn(H0["Consequent.text"][self_])
     for i, (kind, val, q) in enumerate(outs):
         tag = f"[path{i}]"
         if kind == "raise":
@@ -214,6 +248,10 @@ def verify_consequent_load(run):
         # success => at least one conclusion, every conclusion `variable is hedge* term` complete (variable and term present)
         ok = z3.And(lc > 0, z3.Implies(z3.And(jS >= 0, jS < lc), z3.And(concl[jS] != NONE, q.heap["Proposition.variable"][concl[jS]] != NONE, q.heap["Proposition.term"][concl[jS]] != NONE)))
         run.add(Obl(f"{fq}/accepts_only_complete_conclusions{tag}", q.pc + str_distinct(), ok, fn=fq, meta={"replay": RP}))
+        # ... and every conclusion is the reading of its own tokens: variable, `is`, the hedges in text order, the term
+        run.add(Obl(f"{fq}/ensures.conclusions_read_in_text_order{tag}", q.pc + str_distinct(),
+                    z3.Implies(z3.And(jS >= 0, jS < lc), z3.And(gpos(concl[jS]) >= 0, gpos(concl[jS]) < z3.Length(toks), shape(q.heap, toks, concl[jS], True),
+                                                             z3.Implies(jS + 1 < lc, gpos(concl[jS]) < gpos(concl[jS + 1])))), fn=fq, meta={"replay": RP}))
 
 # ------------------------------------------------------------------------------------------------ Antecedent.load
 def verify_antecedent_load(run):
